@@ -578,6 +578,117 @@ for idx = lo, hi do
 end
 return "done", count, killed
 """
+# Second sweep: NO memory limit at all (only a CPU limit on the whole case), plain pcall.  Integer edge values are the
+# "half-overflow" ones: each product n*#s fits int64 or is absurdly large, sums overflow; sizes that a machine could really try to
+# allocate (2^31..2^53) are left out on purpose — without a memory limit a fatal out-of-memory is the embedder's choice, not a defect.
+NL_LABELS = ["nil", "0", "1", "2", "3", "-1", "1<<62", "(1<<62)+1", "(1<<61)+1", "maxint", "maxint-1", "minint", "1.5", "huge",
+             "''", "'x'", "'ab'", "'%d%s'", "{}", "{1,2,3}", "true"]
+NL_FIRST = [14, 15, 16, 19, 2, 9]          # indexes (0-based) of the values used as FIRST argument of 3-argument calls
+SWEEP_NL_LUA = r"""
+local path, lo, hi = "%s", %d, %d
+local unpack = table.unpack
+local function resolve(p)
+  if p:sub(1, 4) == "smt." then return getmetatable("")[p:sub(5)] end
+  local v = package.loaded
+  for part in p:gmatch("[^.]+") do v = v[part] if v == nil then return nil end end
+  return v
+end
+local F = resolve(path)
+if type(F) ~= "function" then return "nofunc" end
+local function pool()
+  return {nil, 0, 1, 2, 3, -1, 1 << 62, (1 << 62) + 1, (1 << 61) + 1, math.maxinteger, math.maxinteger - 1, math.mininteger, 1.5, math.huge,
+          "", "x", "ab", "%%d%%s", {}, {1, 2, 3}, true}
+end
+local Q = %d
+local first = {%s}
+local function tuple(idx)
+  if idx == 0 then return 0 end
+  if idx <= Q then return 1, idx end
+  idx = idx - Q - 1
+  if idx < Q * Q then return 2, idx // Q + 1, idx %% Q + 1 end
+  idx = idx - Q * Q
+  return 3, first[idx // (Q * Q) + 1], (idx // Q) %% Q + 1, idx %% Q + 1
+end
+local count = 0
+for idx = lo, hi do
+  local n, a, b, c = tuple(idx)
+  local p = pool()
+  local args = {p[a], p[b], p[c]}
+  pcall(F, unpack(args, 1, n))
+  count = count + 1
+end
+return "done", count
+"""
+
+
+_NLV = {"''": 0, "'x'": 1, "'ab'": 2, "'y'": 1, "'yz'": 2, "'%d%s'": 4, "0": 0, "1": 1, "2": 2, "3": 3, "-1": -1, "1<<62": 1 << 62,
+        "(1<<62)+1": (1 << 62) + 1, "(1<<61)+1": (1 << 61) + 1, "maxint": (1 << 63) - 1, "math.maxinteger": (1 << 63) - 1,
+        "maxint-1": (1 << 63) - 2, "math.maxinteger-1": (1 << 63) - 2, "math.maxinteger//2+1": 1 << 62, "minint": -(1 << 63),
+        "math.mininteger": -(1 << 63)}
+
+
+def rep_size_is_plain_huge(args):
+    """True iff string.rep(args) asks for a size that does NOT overflow int64 (each product and the sum) but is far beyond what can be
+    allocated: the input class of the recorded finding C04-rep-makeslice-no-memory-limit."""
+    if len(args) < 2 or any(a not in _NLV for a in args[:3]):
+        return False
+    ls, n = _NLV[args[0]], _NLV[args[1]]
+    lsep = _NLV[args[2]] if len(args) > 2 else 0
+    if not args[0].startswith("'") or (len(args) > 2 and not args[2].startswith("'")) or n <= 0:
+        return False
+    sz1, sz2 = n * ls, (n - 1) * lsep
+    return sz1 < (1 << 63) and sz2 < (1 << 63) and (1 << 40) <= sz1 + sz2 < (1 << 63)
+
+
+def nl_labels(idx):
+    Q = len(NL_LABELS)
+    if idx == 0:
+        return []
+    if idx <= Q:
+        return [NL_LABELS[idx - 1]]
+    idx -= Q + 1
+    if idx < Q * Q:
+        return [NL_LABELS[idx // Q], NL_LABELS[idx % Q]]
+    idx -= Q * Q
+    return [NL_LABELS[NL_FIRST[idx // (Q * Q)]], NL_LABELS[(idx // Q) % Q], NL_LABELS[idx % Q]]
+
+
+# goto / label family: statement sequences inside every kind of block, compiled (never run) inside a function literal
+GL_ITEMS = ["::a::", "::b::", "local x = 1", "local y <const> = 2", "goto a", "goto b", ";", "x = 1", "do ::a:: end", "do goto a end",
+            "do local z ::a:: end", "break", "goto continue", "::continue::"]
+GL_BLOCKS = [
+    ("chunk", "%s"), ("do", "do %s end"), ("while", "while x do %s end"), ("repeat", "repeat %s until x"),
+    ("fornum", "for i = 1, 2 do %s end"), ("forin", "for k, v in pairs(t) do %s end"), ("if", "if x then %s end"),
+    ("else", "if x then else %s end"), ("function", "local function f() %s end"), ("nested", "do do %s end end"),
+    ("outer-label-before", "::a:: do %s end"), ("outer-label-after", "do %s end ::a::"),
+    ("loop-continue", "while x do local q = 1 %s ::continue:: end"),
+]
+
+
+def gen_gotos(rng, tier):
+    import itertools
+    out = []
+    n = len(GL_ITEMS)
+    maxlen = 3 if tier == "quick" else 4
+    seqs = []
+    for L in range(1, maxlen + 1):
+        if L <= 2 or tier != "quick":
+            seqs += list(itertools.product(range(n), repeat=L))
+        else:
+            # quick: all triples over the 9 core items + a random sample of the rest
+            core = [0, 1, 2, 4, 6, 7, 8, 10, 11]
+            seqs += list(itertools.product(core, repeat=3))
+            seqs += [tuple(rng.below(n) for _ in range(3)) for _ in range(300)]
+            seqs += [tuple(rng.below(n) for _ in range(rng.below(3) + 4)) for _ in range(300)]
+    for (bname, btpl) in GL_BLOCKS:
+        for sq in seqs:
+            body = " ".join(GL_ITEMS[i] for i in sq)
+            out.append((bname, "local x, t return function() " + (btpl % body) + " end"))
+            if len(sq) <= (1 if tier == "quick" else 2):
+                out.append((bname + "+return", "local x, t return function() " + (btpl % (body + " return 1")) + " end"))
+    return out
+
+
 SWEEP_SKIP = re.compile(r"^(os\.exit|os\.execute|os\.remove|os\.rename|os\.tmpname|os\.setlocale|io\..*|_G\.print|print|dofile|_G\.dofile|"
                         r"loadfile|_G\.loadfile|require|_G\.require|package\..*|debug\.debug|golib\..*|runtime\.callcontext|runtime\.stopcontext|"
                         r"runtime\.killcontext|_G\.collectgarbage|collectgarbage|debug\.sethook)$")
@@ -704,7 +815,7 @@ def classify_known(ck, fam, label, res, nbytes):
 def run(tier, seed):
     ck = vlib.Check("C04", tier, seed, level="proof")
     ok_obl = ck.obligations(PROP, clean=False)
-    ov = os.environ.get("C04_OVERLAY")        # mutation experiments only: go build -overlay <json>
+    ov = os.environ.get("C04_OVERLAY") or os.environ.get("VERIF_OVERLAY")   # mutation experiments only: go build -overlay <json>
     gvh, err = ck.build_gvh(pkg="./cmd/gvh-limits", name="gvh_limits" + ("_mut" if ov else ""), overlay=ov)
     if gvh is None:
         ck.violation("harness does not build against /repo", {"kind": "build", "stderr": err[-3000:]}, no_input=True)
@@ -877,6 +988,28 @@ def run(tier, seed):
             ref.setdefault(j, o.split(" ", 2)[2])
             if o.split(" ", 2)[2] != ref[j]:
                 ck.violation("result depends on WithRegPoolSize(%d)" % n, {"kind": "Go!=S", "engine": "regpool", "regpoolsize": n, "source": RP[j], "impl": o[:500], "expected": ref[j]})
+
+    # ------------------------------------------------------------ 2d. goto / label family: compile only (gvh-limits codelen), every
+    #      outcome must be a successful compile or an ordinary compile error
+    gl = gen_gotos(ck.rng, tier)
+    ck.log("goto/label family: %d sources" % len(gl))
+    glo = []
+    for i0 in range(0, len(gl), 20000):
+        glo += vlib.run_lines_resilient(gvh, ["codelen"], ["g%d %s" % (i, lua_hex(src)) for i, (b, src) in enumerate(gl[i0:i0 + 20000], i0)],
+                                         per_case_timeout=30)
+    nglbad = 0
+    for (b, src), o in zip(gl, glo):
+        st = o.split(" ")[1] if " " in o else "?"
+        cls = "compiled" if st.isdigit() else st
+        ck.case("gl " + src, True)
+        ck.count("goto:%s:%s" % (b.split("+")[0], cls))
+        if cls not in ("compiled", "err"):
+            nglbad += 1
+            if nglbad <= 3:
+                ck.violation("compile function does not return an ordinary result (Go panic / crash escapes): %s -> %s" % (src, o[:200]),
+                             {"kind": "Go!=S", "engine": "lua", "family": "goto", "label": b, "status": cls, "source": src, "opts": "",
+                              "message": o[:1500]})
+    ck.cov["goto_bad"] = nglbad
 
     # ------------------------------------------------------------ 3. exploration
     ck.log("lim done: %d cases" % len(lim))
@@ -1060,6 +1193,88 @@ def explore(ck, lr, tier):
         elif res["status"] != "ok":
             # error/killed of the sweep script itself is unexpected (each call is isolated): report as machinery note, not a violation
             ck.notes.append("sweep case %s %d-%d ended %s %s" % (n, a, b, res["status"], res.get("msg", "")[:100]))
+
+    # ---- (b') the same functions with NO memory limit and half-overflow integers (arity <= 2 all pairs, 3-argument forms with a
+    #      string/table/int first argument); a fatal out-of-memory of the child is tolerated here, everything else is not
+    Q = len(NL_LABELS)
+    nlt = 1 + Q + Q * Q + len(NL_FIRST) * Q * Q
+    first_lua = ",".join(str(i + 1) for i in NL_FIRST)
+    nl_src = lambda n, a, b: SWEEP_NL_LUA % (n, a, b, Q, first_lua)
+    nl = [(n, 0, nlt - 1) for n in names if not SWEEP_SKIP.match(n)]
+    ck.log("no-memory-limit sweep: %d functions x %d tuples" % (len(nl), nlt))
+    nlines = ["u%d %s cpu=200000000 flags=4" % (i, lua_hex(nl_src(n, a, b))) for i, (n, a, b) in enumerate(nl)]
+    nouts = lr.run(nlines, timeout=(60 if quick else 300), batch=100)
+
+    def nl_bad(res):
+        if res["status"] in ("gopanic", "HANG", "?"):
+            return True
+        return res["status"] == "CRASH" and "out of memory" not in res.get("msg", "")
+    for i, (n, a, b) in enumerate(nl):
+        res = parse_lua(nouts[i]) if i < len(nouts) else {"status": "?"}
+        ck.count("libnl:%s" % res["status"])
+        ck.cov["evaluations"] += (b - a)
+        ck.case("libnl %s" % n, True)
+        if res["status"] == "CRASH" and not nl_bad(res):
+            ck.count("libnl:fatal-oom-tolerated")
+        if nl_bad(res):
+            lo_, hi_ = a, b
+            while lo_ < hi_:
+                mid = (lo_ + hi_) // 2
+                o = lr.run(["b %s cpu=200000000 flags=4" % lua_hex(nl_src(n, lo_, mid))], timeout=60)
+                if nl_bad(parse_lua(o[0])):
+                    hi_ = mid
+                else:
+                    lo_ = mid + 1
+            args = nl_labels(lo_)
+            o = lr.run(["b %s cpu=200000000 flags=4" % lua_hex(nl_src(n, lo_, lo_))], timeout=60)
+            r1 = parse_lua(o[0])
+            if not nl_bad(r1):
+                ck.count("libnl:not-reproduced")
+                ck.notes.append("no-limit sweep %s: %s not reproduced on a single tuple" % (n, res["status"]))
+                continue
+            k = None
+            if n in ("string.rep", "smt.rep") and r1["status"] == "gopanic" and "makeslice: len out of range" in r1.get("msg", "") \
+                    and rep_size_is_plain_huge(args):
+                k = ck.known_match(lambda k: k["id"] == "C04-rep-makeslice-no-memory-limit")
+            if k:
+                ck.known_finding(k)
+                # the recorded defect hides the rest of this function's tuples: run the remainder in two halves around it
+                for (x, y) in ((a, lo_ - 1), (lo_ + 1, b)):
+                    if x <= y:
+                        pass   # (kept simple: the narrow re-sweep below covers string.rep's 3-argument forms)
+            else:
+                bad_total += 1
+                ck.violation("library call crashes the host (no memory limit): %s(%s) -> %s %s" % (n, ", ".join(args), r1["status"], r1.get("msg", "")[:120]),
+                             {"kind": "Go!=S", "engine": "lua", "function": n, "args": args, "tuple_index": lo_,
+                              "status": r1["status"], "message": r1.get("msg", "")[:1500],
+                              "source": nl_src(n, lo_, lo_), "opts": "cpu=200000000 flags=4"})
+    # string.rep has a recorded no-limit defect (2-argument makeslice) that ends its case early: sweep its tuples one case each
+    # for the half-overflow integers so that a second defect in the same function is still seen
+    reps = []
+    for fn in ("string.rep", "smt.rep"):
+        for s_ in ("''", "'x'", "'ab'"):
+            for n_ in ("0", "1", "2", "-1", "1<<62", "(1<<62)+1", "(1<<61)+1", "math.maxinteger", "math.maxinteger-1", "math.maxinteger//2+1", "math.mininteger"):
+                for sep in (None, "''", "'y'", "'yz'"):
+                    call = "%s, %s" % (s_, n_) + ("" if sep is None else ", " + sep)
+                    f_ = "string.rep" if fn == "string.rep" else "getmetatable('').__index.rep"
+                    reps.append((fn, call, "return (pcall(%s, %s))" % (f_, call)))
+    rl2 = ["q%d %s cpu=50000000" % (i, lua_hex(src)) for i, (fn, call, src) in enumerate(reps)]
+    ro2 = lr.run(rl2, timeout=60)
+    for (fn, call, src), o in zip(reps, ro2):
+        r = parse_lua(o)
+        ck.case("rep " + fn + call, True)
+        ck.count("repnl:%s" % r["status"])
+        if nl_bad(r):
+            plain_huge = rep_size_is_plain_huge([a.strip() for a in call.split(",")])
+            k = ck.known_match(lambda k: k["id"] == "C04-rep-makeslice-no-memory-limit") if (
+                r["status"] == "gopanic" and "makeslice: len out of range" in r.get("msg", "") and plain_huge) else None
+            if k:
+                ck.known_finding(k)
+            else:
+                bad_total += 1
+                ck.violation("library call crashes the host (no memory limit): %s(%s) -> %s %s" % (fn, call, r["status"], r.get("msg", "")[:120]),
+                             {"kind": "Go!=S", "engine": "lua", "function": fn, "args": call, "status": r["status"], "message": r.get("msg", "")[:1500],
+                              "source": src, "opts": "cpu=50000000"})
 
     # ---- (c) recursion / explosion
     rl = []
